@@ -88,12 +88,18 @@ def gen_pf(rng, depth, in_body, names, flags):
         a = s()
         b = a if rng.random() < 0.4 else s()
         return T([txt("#ifeq:") + a, b, s()] + ([s()] if rng.random() < 0.7 else []))
-    val = txt(rng.choice(["a", "b", "c", "zz"]))
+    val = txt(rng.choice(["a", "b", "c", "d", "zz"]))
     cases = []
     for _ in range(rng.randint(1, 4)):
-        k = rng.choice(["a", "b", "c", "#default"])
-        if rng.random() < 0.25:
+        k = rng.choice(["a", "b", "c", "d", "#default"])
+        r = rng.random()
+        if r < 0.2:
             cases.append(txt(k))                      # fall-through
+        elif r < 0.4:
+            # a fall-through group: several labels share the next keyed result
+            for kk in rng.sample(["a", "b", "c", "d", "e"], rng.randint(2, 3)):
+                cases.append(txt(kk))
+            cases.append(txt(rng.choice(["a", "e", "zz"]) + "=") + s())
         else:
             cases.append(txt(k + "=") + s())
     if rng.random() < 0.3:
